@@ -137,8 +137,17 @@ Bf3ReadVerdict(ev) ==
              ELSE "ok"
 Bf3NoSilentAccept(ev) == (ev.has_auth = 1 /\ ev.kind = "ok") => (SameComps(ev.comps, ev.auth_comps) /\ ev.comments = ev.auth_comments)
 
+\* ---- C14: one call of a parsing entry point on arbitrary text
+AllowedClass(mro) == \E j \in 1..Len(mro) : mro[j] \in {"FormatError", "ValueError"}
+CallVerdict(ev) ==
+    IF ev.timeout = 1 THEN "hang"
+    ELSE IF ev.reg_same # 1 THEN "library-global-state-changed"
+    ELSE IF ev.kind = "raise" /\ ~AllowedClass(ev.mro) THEN "exception-class"
+    ELSE "ok"
+
 Verdict(ev) ==
     IF ev.op = "c08.wrap" THEN WrapVerdict(ev)
+    ELSE IF ev.op = "c14.call" THEN CallVerdict(ev)
     ELSE IF ev.op = "bf3.write" THEN Bf3WriteVerdict(ev)
     ELSE IF ev.op = "bf3.read" THEN (IF ~Bf3NoSilentAccept(ev) THEN "silent-accept" ELSE Bf3ReadVerdict(ev))
     ELSE IF ev.op = "c09.pack" THEN PackVerdict(ev)
